@@ -188,8 +188,10 @@ Qed.
 Lemma mask_select_filter {A} (q : A -> bool) (l : list A) : mask_select (map q l) l = filter q l.
 Proof. induction l as [|a l IH]; cbn [map mask_select filter]; [reflexivity|]. rewrite IH. reflexivity. Qed.
 
+(* (model repair: mask_fits m n = (m =? n) || (m =? 0) — numpy accepts the EMPTY boolean
+   array on an axis of any length; this lemma used to read `if length bs =? n`) *)
 Lemma mask_positions (bs : list bool) (n : nat) :
-  np_positions (IdxMask bs) n = if length bs =? n then Some (mask_select bs (seq 0 n)) else None.
+  np_positions (IdxMask bs) n = if mask_fits (length bs) n then Some (mask_select bs (seq 0 n)) else None.
 Proof. unfold np_positions. cbn [np_take]. rewrite seq_length. reflexivity. Qed.
 
 Lemma mask_select_sorted {A} (R : A -> A -> Prop) (bs : list bool) : forall l : list A,
@@ -226,24 +228,30 @@ Proof.
         -- split; [lia|]. replace (i - a) with (S (i - S a)) in H2 by lia. exact H2.
 Qed.
 
-(* a mask of the right length designates exactly its True positions, in increasing order;
-   any other length raises *)
+(* a mask of the right length, OR THE EMPTY MASK (which numpy accepts on an axis of any
+   length), designates exactly its True positions, in increasing order; any other length
+   raises.  (Model repair: the statement used to read `length bs = n /\ ...`; the empty mask
+   on a non-empty axis was an error of the model, not of numpy.) *)
 Lemma mask_positions_spec (bs : list bool) (n : nat) (ps : list nat) :
   np_positions (IdxMask bs) n = Some ps <->
-  length bs = n /\ ps = mask_select bs (seq 0 n).
+  (length bs = n \/ bs = []) /\ ps = mask_select bs (seq 0 n).
 Proof.
-  rewrite mask_positions. destruct (Nat.eqb_spec (length bs) n) as [E|E].
-  - split; [intros H; injection H as <-; auto|intros [_ ->]; reflexivity].
-  - split; [discriminate|intros [H _]; contradiction].
+  unfold np_positions. rewrite (np_take_mask_spec bs (seq 0 n) ps), seq_length. reflexivity.
 Qed.
+
+Lemma mask_positions_empty (n : nat) : np_positions (IdxMask []) n = Some [].
+Proof. unfold np_positions. apply np_take_mask_empty. Qed.
 
 Lemma mask_positions_sorted (bs : list bool) (n : nat) (ps : list nat) :
   np_positions (IdxMask bs) n = Some ps ->
   StronglySorted lt ps /\ (forall i, In i ps <-> i < n /\ nth i bs false = true).
 Proof.
-  intros H. apply mask_positions_spec in H as [Hl ->]. split.
-  - apply mask_select_sorted. apply seq_sorted.
-  - intros i. rewrite (mask_select_seq_In bs 0 n i Hl). rewrite Nat.sub_0_r. split; intros [H1 H2]; split; auto; lia.
+  intros H. apply mask_positions_spec in H as [[Hl| ->] ->].
+  - split.
+    + apply mask_select_sorted. apply seq_sorted.
+    + intros i. rewrite (mask_select_seq_In bs 0 n i Hl). rewrite Nat.sub_0_r. split; intros [H1 H2]; split; auto; lia.
+  - cbn [mask_select]. split; [constructor|]. intros i. split; [contradiction|].
+    intros [_ H]. destruct i; discriminate H.
 Qed.
 
 (* ---- lists of integers ---- *)
@@ -516,8 +524,16 @@ Section Frame2.
   Lemma subframe2_mask (F : frame2) (q : entry row -> bool) : wf F ->
     subframe2 F (IdxMask (map q (rows_of F))) = close F (filter q (rows_of F)) (f_probe F).
   Proof.
-    intros Hwf. rewrite (subframe2_closed F (IdxMask (map q (rows_of F))) Hwf I). cbn [np_take]. rewrite map_length, Nat.eqb_refl.
+    intros Hwf. rewrite (subframe2_closed F (IdxMask (map q (rows_of F))) Hwf I). cbn [np_take]. rewrite map_length, mask_fits_refl.
     rewrite mask_select_filter. reflexivity.
+  Qed.
+
+  (* Frame.subframe(np.array([], dtype=bool)) of a frame with ANY number of timetraces: the
+     frame without timetraces, same probe and context; never a raise (model repair) *)
+  Lemma subframe2_empty_mask (F : frame2) : wf F ->
+    subframe2 F (IdxMask []) = Ok (unrows F [] (f_probe F)).
+  Proof.
+    intros Hwf. rewrite (subframe2_closed F (IdxMask []) Hwf I), np_take_mask_empty. reflexivity.
   Qed.
 
   (* a bare integer as timetrace index *)
@@ -596,7 +612,7 @@ Section Frame2.
   Lemma take_mask_map {A} (q : entry row -> bool) (h : entry row -> A) (rows : frame row) :
     take_res (IdxMask (map q rows)) (map h rows) = Ok (map h (filter q rows)).
   Proof.
-    unfold take_res. cbn [np_take]. rewrite !map_length, Nat.eqb_refl. cbn [of_opt].
+    unfold take_res. cbn [np_take]. rewrite !map_length, mask_fits_refl. cbn [of_opt].
     rewrite mask_select_map, mask_select_filter. reflexivity.
   Qed.
 
@@ -676,6 +692,26 @@ Section Frame2.
     - rewrite !map_length. apply (f_equal (@length _)) in G3. rewrite !map_length in G3. exact G3.
     - pose proof (filter_widths F (retained E) Hwf) as Hw. unfold widths in Hw. rewrite Forall_forall in *.
       intros r Hr. apply in_map_iff in Hr as (e & <- & He). auto.
+  Qed.
+
+  (* Frame.subframe_from_probe_elements(np.array([], dtype=bool), make_subprobe) on a frame
+     with ANY probe: no element retained, hence no timetrace; the probe without elements
+     (make_subprobe=True) or the probe as it is; never a raise.  (Model repair: np_take used
+     to answer None — IndexError — for the empty mask on a non-empty axis.) *)
+  Lemma filter_retained_nil (rows : frame row) : filter (retained [] (P:=row)) rows = [].
+  Proof. induction rows as [|e rows IH]; [reflexivity|]. cbn [filter]. exact IH. Qed.
+
+  Lemma sub_elements2_empty_mask (F : frame2) (mk : bool) : wf F ->
+    sub_elements2 F (IdxMask []) mk = Ok (unrows F [] (if mk then [] else f_probe F)).
+  Proof.
+    intros Hwf. destruct mk.
+    - pose proof (sub_elements2_mk F (IdxMask []) Hwf I) as H. rewrite mask_positions_empty in H.
+      destruct H as (sp & g & Hsp & _ & _ & Hg & _ & ->).
+      rewrite np_take_mask_empty in Hsp. injection Hsp as <-.
+      rewrite filter_retained_nil in Hg. cbn [mapM] in Hg. injection Hg as <-. reflexivity.
+    - unfold sub_elements2. rewrite (retained_elements_positions _ (IdxMask []) I), mask_positions_empty.
+      cbn [of_opt rbind negb]. rewrite (retained_mask_rows F [] Hwf), (subframe2_mask F (retained []) Hwf).
+      rewrite filter_retained_nil. reflexivity.
   Qed.
 
   (* a bare integer with make_subprobe=True: Probe.subprobe cannot build a probe from one
@@ -841,7 +877,7 @@ Section Frame2.
     intros Hwf. unfold get_timetrace2, get_timetrace.
     rewrite <- (keys_rows_of F Hwf). unfold keys. rewrite map_map.
     rewrite <- (payloads_rows_of F Hwf) at 1.
-    cbn [np_take]. rewrite !map_length, Nat.eqb_refl. rewrite mask_select_map, mask_select_filter.
+    cbn [np_take]. rewrite !map_length, mask_fits_refl. rewrite mask_select_map, mask_select_filter.
     assert (Eq : filter (fun e : entry row => (Z.of_nat (fst (key e)) =? Z.of_nat a)%Z && (Z.of_nat (snd (key e)) =? Z.of_nat b)%Z) (rows_of F)
                  = filter (fun e : entry row => pair_eqb (key e) (a, b)) (rows_of F)).
     { apply filter_ext. intros e. unfold pair_eqb. cbn [fst snd].
@@ -868,7 +904,7 @@ Section Frame2.
     { pose proof (wf_pairs_length F Hwf) as Hl. destruct Hwf as (_ & _ & H3 & _).
       apply map_const_false; [lia|]. intros p0.
       destruct (Z.eqb_spec (Z.of_nat (fst p0)) t); destruct (Z.eqb_spec (Z.of_nat (snd p0)) r); cbn; try reflexivity; lia. }
-    rewrite Em. cbn [np_take]. rewrite map_length, Nat.eqb_refl. rewrite mask_select_filter.
+    rewrite Em. cbn [np_take]. rewrite map_length, mask_fits_refl. rewrite mask_select_filter.
     replace (filter (fun _ : row => false) (f_tt F)) with (@nil row); [reflexivity|].
     clear. induction (f_tt F); cbn; auto.
   Qed.
@@ -1163,12 +1199,13 @@ Section Frame2.
       + discriminate.
   Qed.
 
-  Lemma subframe2_mask_ok (F : frame2) bs : wf F -> length bs = f_ntt F ->
+  (* (model repair: the empty mask joins the masks of the right length) *)
+  Lemma subframe2_mask_ok (F : frame2) bs : wf F -> length bs = f_ntt F \/ bs = [] ->
     exists F', subframe2 F (IdxMask bs) = Ok F'.
   Proof.
     intros Hwf Hl.
     assert (Ep : np_positions (IdxMask bs) (f_ntt F) = Some (mask_select bs (seq 0 (f_ntt F)))).
-    { apply mask_positions_spec. auto. }
+    { apply mask_positions_spec. split; [exact Hl|reflexivity]. }
     apply (subframe2_distinct_positions F (IdxMask bs) _ Hwf I Ep).
     apply sorted_lt_NoDup. exact (proj1 (mask_positions_sorted _ _ _ Ep)).
   Qed.
